@@ -178,6 +178,10 @@ func (t *c14Tap) Write(ctx context.Context, r *Rpc) error {
 			t.sink.watch[r.Id] = &c14Watch{}
 			t.sink.hold[r.Id] = make(chan struct{})
 			t.sink.mu.Unlock()
+		case 'L':
+			t.sink.mu.Lock()
+			t.sink.watch[r.Id] = &c14Watch{}
+			t.sink.mu.Unlock()
 		}
 	}
 	return t.end.Write(ctx, r)
@@ -357,7 +361,7 @@ type c14Call struct {
 
 var c14Methods = []string{mUnary, mBidi, mSrvStream, mCliStream}
 
-var c14Outcomes = []string{"ok", "error", "cancel", "precancel", "deadline", "reset", "early", "writefail"}
+var c14Outcomes = []string{"ok", "error", "cancel", "precancel", "deadline", "reset", "early", "writefail", "latecancel"}
 
 func c14Gen(rng *rand.Rand, seq int, deadlineOneIn int) c14Call {
 	c := c14Call{Kind: rng.Intn(4), NSend: 1 + rng.Intn(4)}
@@ -368,6 +372,9 @@ func c14Gen(rng *rand.Rand, seq int, deadlineOneIn int) c14Call {
 	if c.Kind == 0 && (c.Outcome == "reset" || c.Outcome == "early") {
 		c.Outcome = "error" // resets exist for streams only
 	}
+	if c.Kind == 0 && c.Outcome == "latecancel" {
+		c.Outcome = "cancel"
+	}
 	c.Cut = rng.Intn(c.NSend + 1)
 	c.Ms = 2 + rng.Intn(3)
 	prefix := "T"
@@ -376,6 +383,8 @@ func c14Gen(rng *rand.Rand, seq int, deadlineOneIn int) c14Call {
 		prefix = "W"
 	case c.Outcome == "reset":
 		prefix = "R"
+	case c.Outcome == "latecancel":
+		prefix = "L"
 	case c.Kind == 0 && (c.Outcome == "cancel" || c.Outcome == "deadline"):
 		prefix = "H"
 	}
@@ -447,6 +456,8 @@ func c14Exec(g *c14Rig, c c14Call) (stream bool) {
 		return runStreamCall(base, g.cc, method, c.Tag, "echo", "sendall", c.NSend, nil).OpenErr == ""
 	case "reset":
 		return c14ResetCall(g, c, method)
+	case "latecancel":
+		return c14LateCancel(g, c, method)
 	}
 	// cancel, precancel, deadline
 	prog := "hold"
@@ -529,6 +540,38 @@ func c14ResetCall(g *c14Rig, c c14Call, method string) bool {
 		}
 	}
 	unhold()
+	for {
+		if _, err := recvB(cs); err != nil {
+			break
+		}
+	}
+	return true
+}
+
+// c14LateCancel: the server has finished the stream and forgotten it while its last message and
+// trailer are still unread at the caller (nobody calls RecvMsg); the caller then cancels, and its
+// reset reaches a server that no longer knows the id. Nothing may be registered for it again.
+func c14LateCancel(g *c14Rig, c c14Call, method string) bool {
+	ctx, cancel := context.WithCancel(context.Background())
+	defer cancel()
+	ctx = metadata.AppendToOutgoingContext(ctx, "x-tag", c.Tag, "x-prog", "aftereof:1")
+	cs, err := g.cc.NewStream(ctx, descOf(method), method)
+	id, known := g.tap.idOf(c.Tag)
+	s := g.sink
+	defer func() {
+		if known {
+			s.mu.Lock()
+			delete(s.watch, id)
+			s.mu.Unlock()
+		}
+	}()
+	if err != nil {
+		return false
+	}
+	if sendB(cs, cliMsg(c.Tag, 0)) == nil && cs.CloseSend() == nil && known {
+		s.waitFor(func() bool { w := s.watch[id]; return w != nil && w.unregistered }, hangTimeout)
+	}
+	cancel()
 	for {
 		if _, err := recvB(cs); err != nil {
 			break
